@@ -327,6 +327,14 @@ class GroupBase:
             if all(item == [default] for item in idx_cross_mdls):
                 out_pre.append([default])
                 continue
+            if allow_all:
+                # all matches, from every model of the group that has some
+                found = []
+                for item in idx_cross_mdls:
+                    if item != [default]:
+                        found.extend(item)
+                out_pre.append(found)
+                continue
             for item in idx_cross_mdls:
                 if item != [default]:
                     out_pre.append(item)
